@@ -1,5 +1,6 @@
 //@@ module: engine/eval/pawn_structure.rs
 //@@ tag: c16
+//@@ needs: chess__board@sym.rs
 use crate::verif_support::geo;
 
 fn flip_sq(s: Square) -> Square {
@@ -63,4 +64,56 @@ fn vk_c16_passed_tables_mirror() {
     kani::cover!(true);
     assert!(enemy_passed_pawn_mask(Player::Black, flip_sq(s)) == enemy_passed_pawn_mask(Player::White, s).flip_vertically());
     assert!(pst_value(Player::Black, flip_sq(s)) == -pst_value(Player::White, s));
+}
+
+// ---------------------------------------------------------------------------------------------------------------
+// The passed-pawn bonus as a function against a spec, piecewise: one iteration of its only loop (block verbatim).
+//   bonus(player) = sum over the player's pawns p with (enemy_mask(player, p) & their pawns) == 0 of PST(player, p)
+// ---------------------------------------------------------------------------------------------------------------
+use crate::chess::board::verif_kani_sym as sym;
+
+//@@ loopstep: engine/eval/pawn_structure.rs :: fn calculate_passed_pawn_bonus :: for pawn in our_pawns => #[allow(unused_mut, unused_variables)] fn passed_step<const TRACE: bool>(board: &Board, player: Player, trace: &mut Trace, st: (PhasedEval, Bitboard, Bitboard)) -> PhasedEval ;; let (mut bonus, our_pawns, their_pawns) = st; let mut verif_iter = 0u8; ;; if verif_iter == 1 { return bonus; } verif_iter += 1; ;; bonus
+
+//@@ prefix: engine/eval/pawn_structure.rs :: fn calculate_passed_pawn_bonus :: for pawn in our_pawns => #[allow(unused_mut, unused_variables)] fn passed_init<const TRACE: bool>(board: &Board, player: Player, trace: &mut Trace) -> (PhasedEval, Bitboard, Bitboard) ;; (bonus, our_pawns, their_pawns)
+
+//@ obligation: C16.passed.bonus_step
+//@ property: C16
+//@ domain: complete
+//@ functions: engine/eval/pawn_structure.rs::calculate_passed_pawn_bonus
+//@ timeout: 900
+//@ mem_gb: 6
+//@ note: the passed-pawn bonus piecewise: the text before the loop takes exactly the player's pawns and the enemy's pawns from the board and starts at zero; one iteration of the loop (block verbatim) from ANY running bonus and ANY two pawn sets adds PST(player, p) for the member p it runs for exactly when no enemy pawn lies in the mask of p (C16.passed_mask.geometry: the squares strictly ahead on the three files), and nothing otherwise; arbitrary table contents
+//@ assumes: loop iterations depend on each other only through the accumulator; table contents are C16.passed_mask.* / C16.passed_tables.*
+#[kani::proof]
+#[kani::unwind(10)]
+fn vk_c16_passed_bonus_step() {
+    let mb = sym::any_mailbox();
+    let board = sym::board_of(&mb);
+    let player = geo::any_player();
+    let mut t = Trace::new();
+    // arbitrary table contents for the squares looked up
+    let q = geo::any_square();
+    unsafe {
+        ENEMY_PASSED_PAWN_MASKS[player.array_idx()][q.array_idx()] = Bitboard::new(kani::any());
+        let (a, b): (i16, i16) = (kani::any(), kani::any());
+        kani::assume(-2000 <= a && a <= 2000 && -2000 <= b && b <= 2000);
+        PASSED_PAWN_PST[player.array_idx()][q.array_idx()] = PhasedEval::new(a, b);
+    }
+    let (b0, ours, theirs) = passed_init::<false>(&board, player, &mut t);
+    assert!(b0 == PhasedEval::ZERO && ours == board.pawns(player) && theirs == board.pawns(player.other()));
+    let (x, y): (i16, i16) = (kani::any(), kani::any());
+    kani::assume(-8000 <= x && x <= 8000 && -8000 <= y && y <= 8000);
+    let bonus0 = PhasedEval::new(x, y);
+    let ours = Bitboard::new(kani::any());
+    let theirs = Bitboard::new(kani::any());
+    let got = passed_step::<false>(&board, player, &mut t, (bonus0, ours, theirs));
+    if ours.is_empty() {
+        assert!(got == bonus0);
+    } else {
+        let p = ours.lsb().single();
+        kani::cover!(p == q);
+        let passed = (enemy_passed_pawn_mask(player, p) & theirs).is_empty();
+        kani::cover!(passed && p == q);
+        assert!(got == if passed { bonus0 + pst_value(player, p) } else { bonus0 });
+    }
 }
